@@ -37,7 +37,10 @@ RULE = (
     "cases from one SplitMix64 stream: (learn) real SAC/TD3/DDPG/DQN learn() runs, n_envs 1..3, observation kinds "
     "Box rank 1/2, uint8 image HWC (transposed by VecTransposeImage) / CHW, Discrete, Dict(Box, image, Discrete), "
     "Box actions with asymmetric dyadic per-dimension bounds (1-2 dims) or Discrete actions, scripted episodes mixing "
-    "termination / truncation / both / length-1 / never-ending, learning_starts 0..100, train_freq 1..5 steps or 1..2 "
+    "termination / truncation / both / length-1 / never-ending, per env an info-dict style (fresh dict per step / one "
+    "dict object reused for the env's lifetime, so that the VecEnv's terminal_observation stays in it during the next "
+    "episode / reused with extra env keys / fresh with env-supplied TimeLimit.truncated and terminal_observation=None), "
+    "learning_starts 0..100, train_freq 1..5 steps or 1..2 "
     "episodes, gradient_steps in {1,2,-1,0}, action noise none / Normal / Ornstein-Uhlenbeck (plain, auto-vectorised, "
     "user-vectorised), gSDE with/without use_sde_at_warmup, VecNormalize with/without norm_obs / norm_reward "
     "(clip_obs >= 10), ring smaller than the run, 1..3 consecutive learn() calls with/without reset_num_timesteps, "
@@ -108,8 +111,18 @@ def act_space_of(act):
 class C04Env(E.ScriptedEnv):
     """ScriptedEnv with configurable action bounds and small Discrete / Dict observation kinds."""
 
-    def __init__(self, env_id, obs_kind, act, script):
+    def __init__(self, env_id, obs_kind, act, script, info_mode="fresh"):
         gym.Env.__init__(self)
+        # how the env builds the info it returns (all legal for a Gymnasium env):
+        #   fresh         a new dict per step
+        #   reused        ONE dict object for the env's lifetime, updated in place and returned by every step()/reset()
+        #                 (whatever a VecEnv wrote into it — "terminal_observation", "TimeLimit.truncated" — is still
+        #                 there on the following steps)
+        #   reused_extra  the same, carrying additional env keys
+        #   stale_keys    a new dict per step that already holds "TimeLimit.truncated" (an arbitrary value, as an inner
+        #                 TimeLimit-like wrapper could have left it) and "terminal_observation": None
+        self.info_mode = info_mode
+        self.info = {}
         self.env_id = env_id
         self.obs_kind = obs_kind
         self.act_kind = act["kind"]
@@ -132,6 +145,9 @@ class C04Env(E.ScriptedEnv):
         self.needs_reset = False
         tag = tag_for(self.obs_kind, self.env_id, self.episode, 0)
         self.log.append(["reset", seed, options, tag])
+        if self.info_mode in ("reused", "reused_extra"):
+            self.info["reset_tag"] = tag
+            return enc(tag, self.obs_kind), self.info
         return enc(tag, self.obs_kind), {"reset_tag": tag}
 
     def step(self, action):
@@ -144,7 +160,19 @@ class C04Env(E.ScriptedEnv):
                          str(np.asarray(action).dtype)])
         if term or trunc:
             self.needs_reset = True
-        return enc(tag, self.obs_kind), float(rew), bool(term), bool(trunc), {"tag": tag, "k": self.n_steps}
+        if self.info_mode in ("reused", "reused_extra"):
+            info = self.info
+            info["tag"], info["k"] = tag, self.n_steps
+            if self.info_mode == "reused_extra":
+                info["is_success"] = bool(term)
+                info.setdefault("history", []).append(tag)
+                info["nested"] = {"k": self.n_steps}
+        elif self.info_mode == "stale_keys":
+            info = {"tag": tag, "k": self.n_steps, "TimeLimit.truncated": bool((self.n_steps + self.env_id) % 2),
+                    "terminal_observation": None}
+        else:
+            info = {"tag": tag, "k": self.n_steps}
+        return enc(tag, self.obs_kind), float(rew), bool(term), bool(trunc), info
 
 
 # =================================================================================================
@@ -290,6 +318,8 @@ def gen_learn(rng, widen=False, kc04a=False, kc04b=False):
     case = {
         "kind": "kc04a" if kc04a else "kc04b" if kc04b else "learn",
         "algo": algo, "n_envs": n_envs, "obs_kind": obs_kind, "act": act, "scripts": scripts,
+        "info_modes": [rng.weighted([("fresh", 3), ("reused", 4), ("reused_extra", 2), ("stale_keys", 2)])
+                       for _ in range(n_envs)],
         "learning_starts": rng.choice([0, 0, 1, 3, 5, 10, 100]),
         "train_freq": train_freq,
         "gradient_steps": rng.choice([1, 1, 2, -1, 0]),
@@ -374,6 +404,8 @@ def shrink_candidates(case):
             c = dict(case)
             c["n_envs"] = case["n_envs"] - 1
             c["scripts"] = case["scripts"][:-1]
+            if case.get("info_modes"):
+                c["info_modes"] = case["info_modes"][:-1]
             c["buffer_size"] = max(c["n_envs"], case["buffer_size"] // case["n_envs"] * c["n_envs"])
             if c["noise"] and c["n_envs"] == 1:
                 c["noise"] = dict(c["noise"], user_vectorized=False)
@@ -385,6 +417,15 @@ def shrink_candidates(case):
                 if f == "use_sde":
                     c["sde_warmup"] = False
                 yield c
+        if any(m != "fresh" for m in case.get("info_modes") or []):
+            c = dict(case)
+            c["info_modes"] = ["fresh"] * case["n_envs"]
+            yield c
+            for m in ("reused",):
+                if any(x not in ("fresh", m) for x in case["info_modes"]):
+                    c = dict(case)
+                    c["info_modes"] = [x if x == "fresh" else m for x in case["info_modes"]]
+                    yield c
         if case["obs_kind"] != "box1" and not case.get("vecnorm") and k != "kc04b":
             c = dict(case)
             c["obs_kind"] = "box1"
@@ -671,7 +712,8 @@ def snap_nz(vn, case):
 def run_learn(ctx, case):
     n = case["n_envs"]
     kind = case["obs_kind"]
-    envs = [C04Env(i, kind, case["act"], case["scripts"][i]) for i in range(n)]
+    modes = case.get("info_modes") or ["fresh"] * n
+    envs = [C04Env(i, kind, case["act"], case["scripts"][i], modes[i]) for i in range(n)]
     CLOCK["phase"], CLOCK["step"] = "setup", 0
     np.random.seed(case["seed"] % (2 ** 31))
     model, vn = make_model(case, envs)
@@ -921,6 +963,9 @@ def oracle_learn(ctx, case, r):
                     cls = "other"
                     if ended and T["reset_obs"] is not None and S["next"] == obs_vec(T["reset_obs"], kind):
                         cls = "auto_reset_observation"
+                    prev_term = [t["next"] for t in trans[i][:k] if t["term"] or t["trunc"]]
+                    if not ended and prev_term and S["next"] == obs_vec(prev_term[-1], kind):
+                        cls = "stale_terminal_observation_of_previous_episode"
                     rep.violation("stored next observation is not the environment's own successor (the terminal "
                                   "observation when the episode ended)", case,
                                   dict(base_sig, kind="field", field="next_observation", cls=cls, ended=bool(ended)),
@@ -1158,6 +1203,8 @@ def describe(rep, case):
                             f"obs={int(case['vecnorm']['norm_obs'])},rew={int(case['vecnorm']['norm_reward'])}"))
     rep.count("gsde:" + ("off" if not case["use_sde"] else "warmup" if case["sde_warmup"] else "on"))
     rep.count(f"learn_calls:{len(case['calls'])}")
+    for m in case.get("info_modes") or ["fresh"] * case["n_envs"]:
+        rep.count(f"env_info:{m}")
     if any(c["reset"] is False for c in case["calls"][1:]):
         rep.count("continued_learn_without_reset")
     if any(c["reset"] for c in case["calls"][1:]):
